@@ -3,6 +3,7 @@
 #include <occa/internal/modes/serial/buffer.hpp>
 #include <occa/internal/utils/sys.hpp>
 
+#include <occa/internal/utils/verif.hpp>
 namespace occa {
   modeBuffer_t::modeBuffer_t(modeDevice_t *modeDevice_,
                              udim_t size_,
@@ -12,10 +13,12 @@ namespace occa {
     modeDevice(modeDevice_),
     size(size_),
     isWrapped(false) {
+    OCCA_VERIF_CONSTRUCTED(kBuffer);
     modeDevice->addMemoryRef(this);
   }
 
   modeBuffer_t::~modeBuffer_t() {
+    OCCA_VERIF_DESTROYED(kBuffer);
     // destroy all slices
     while (modeMemoryRing.head) {
       modeMemory_t *mem = (modeMemory_t*) modeMemoryRing.head;
